@@ -204,7 +204,7 @@ Proof.
         -- (* accepted head *)
            intro H. injection H as <- _.
            pose proof (parse_header_ok _ _ _ _ Hph) as (fl & lines & h1 & AH).
-           destruct AH as [_ _ _ _ _ _ AS AF].
+           destruct AH as [_ _ _ _ _ _ _ AS AF].
            assert (S1 : status3 p1 = (false, None, false)).
            { rewrite AS. unfold q, status3. cbn. congruence. }
            unfold status3 in S1. injection S1 as S1c S1e S1m.
